@@ -38,7 +38,9 @@ Alphabet(cmd) ==
             \cup (IF \E i \in 1..Len(vs) : vs[i].ty = "StatusInformation"
                   THEN {Fr(EncPacket("StatusInformation", [MinVal("StatusInformation") EXCEPT !.result_code = << <<>> >>]), FALSE)} ELSE {})
       ms == {Malformed(vs[i].ty) : i \in 1..Len(vs)} IN
-  ({AckFrame, NackFrame, ForeignFrame} \cup ws \cup ms) \cup
+  ({AckFrame, NackFrame, ForeignFrame} \cup ws \cup ms
+   \* well-formed packets that are replies - but not to this command
+   \cup {Witness(t) : t \in {"IntermediateStatusInformation", "StatusInformation", "PrintLine", "CompletionData", "Abort"} \ {vs[i].ty : i \in 1..Len(vs)}}) \cup
   (IF cmd = "WriteFile" THEN {Fr(EncPacket("feig_RequestForData", [tlv |-> <<[file |-> <<[file_id |-> << <<1,6>> >>, file_offset |-> << <<>> >>, file_size |-> <<>>, payload |-> <<>>]>>]>>]), FALSE),
                               Fr(EncPacket("feig_RequestForData", [tlv |-> <<[file |-> <<[file_id |-> << <<3,3>> >>, file_offset |-> << <<2>> >>, file_size |-> <<>>, payload |-> <<>>]>>]>>]), FALSE),
                               Fr(EncPacket("feig_RequestForData", [tlv |-> <<[file |-> <<[file_id |-> << <<1,6>> >>, file_offset |-> <<>>, file_size |-> <<>>, payload |-> <<>>]>>]>>]), FALSE),
@@ -58,8 +60,10 @@ Announced(cmd) == IF cmd = "WriteFile" THEN {16, 34} ELSE {}
 
 VARIABLE s
 Scripts(cmd) == UNION {[1..n -> Alphabet(cmd)] : n \in 0..Depth}
-Init == \E cmd \in Cmds : \E sc \in Scripts(cmd), tr \in BOOLEAN :
-          s = Start(cmd, IF tr THEN Append(sc, TruncFrame) ELSE sc, Announced(cmd))
+\* which write of the ECR the connection refuses, if any: 0 (none) .. MaxWFail
+MaxWFail == IF "SEQ_WFAIL" \in DOMAIN IOEnv THEN atoi(IOEnv.SEQ_WFAIL) ELSE 0
+Init == \E cmd \in Cmds : \E sc \in Scripts(cmd), tr \in BOOLEAN, wf \in 0..MaxWFail :
+          s = StartW(cmd, IF tr THEN Append(sc, TruncFrame) ELSE sc, Announced(cmd), wf)
 Next == ~Terminal(s) /\ s' = Step(s)
 
 C05 == P_C05(s.log, s.cmd)
@@ -75,7 +79,7 @@ FaultFreePrefix(st) ==
       fin(k) == kind(k) \in sq.finals \/ ~sq.loop IN
   {k \in 2..n : kind(1) = "Ack" /\ good(k) /\ fin(k) /\ \A j \in 2..(k - 1) : ~fin(j)}
 \* a fault-free exchange hands over every reply up to the first final one, in order, and leaves the rest on the connection
-Delivers == Terminal(s) =>
+Delivers == (Terminal(s) /\ s.wfail = 0) =>
   \A k \in FaultFreePrefix(s) :
      /\ Idx(s.log, IsErr) = {}
      /\ Cardinality(Idx(s.log, IsOk)) = k - 1
@@ -87,5 +91,5 @@ FaultsFail == Terminal(s) => (FaultFreePrefix(s) = {} => Cardinality(Idx(s.log, 
 Emit == (Emitting /\ Terminal(s)) =>
           PrintT(<<"CASE", ToJson([cmd |-> s.cmd,
                                    req |-> EncPacket(SeqOf(s.cmd).req, TypVal(SeqOf(s.cmd).req)),
-                                   frames |-> s.frames, log |-> s.log, left |-> Left(s)])>>)
+                                   frames |-> s.frames, log |-> s.log, left |-> Left(s), wfail |-> s.wfail])>>)
 =============================================================================
